@@ -6,6 +6,7 @@
 From Coq Require Import String List Bool Arith ZArith Permutation.
 From Coq Require Import PrimFloat.
 From Hpotk Require Import Base.Result Base.Str TermId.Model Io.Model Hpoa.Float Hpoa.Model Hpoa.Proofs Hpoa.Range Hpoa.Text Hpoa.TextProofs.
+From Hpotk Require Import Hpoa.VersionLine.
 Import ListNotations.
 
 (* exactly one disease per distinct database id; per disease exactly one annotation per distinct
@@ -88,3 +89,10 @@ Example C08_example :
        (load 50 false [ln false "1" (FRatio 2 5) AP; ln false "6" FEmpty AI; ln false "1" (FRatio 3 8) AP; ln true "2" FEmpty AP; ln false "3" (FTerm 5) AP]%string)
   = Ok [([(hp "1", 5, 13, [], []); (hp "2", 0, 1, [], []); (hp "3", 50, 50, [], [])]%string%Z, [hp "6"%string])].
 Proof. vm_compute. reflexivity. Qed.
+
+(* the version of an HPOA file: a header line "#date: V" or "#version: V" (with or without its line feed) where V is a
+   non-empty text of word characters and dashes gives V - the whole of it; any other header line gives nothing *)
+Theorem C08_version_header : forall (ln v : String.string),
+  version_of_line ln = Some v <->
+  (v <> EmptyString /\ all_word_dash v = true /\ (chomp ln = ("#date: " ++ v)%string \/ chomp ln = ("#version: " ++ v)%string)).
+Proof. exact version_of_line_spec. Qed.
